@@ -9,6 +9,17 @@ def NoCatch : Prog → Prop
   | .seq a b => NoCatch a ∧ NoCatch b
   | .block _ _ _ b => NoCatch b
   | .tryCatch b cs h => NoCatch b ∧ NoCatch h ∧ Exc.cancelled ∉ cs ∧ Exc.tce ∉ cs
+  | .group _ _ b => NoCatch b
+
+/-- programs without task groups (no clean-up ever awaits while an exception is in flight) -/
+def Flat : Prog → Prop
+  | .skip => True
+  | .sleep _ => True
+  | .raise _ => True
+  | .seq a b => Flat a ∧ Flat b
+  | .block _ _ _ b => Flat b
+  | .tryCatch b _ h => Flat b ∧ Flat h
+  | .group _ _ _ => False
 
 def Stale (s : TS) : Prop := ∀ m, s.marker = some m → m ∉ s.deadlines
 def Jj (s : TS) : Prop :=
